@@ -409,6 +409,8 @@ class MirCrate:
         self.index = {}      # name -> list of (start, end)
         self.consts = {}     # promoted / const items by name -> (start,end)
         self.allocs = {}
+        self.simple_consts = {}
+        self.static_allocs = {}
         self._cache = {}
         self._scan()
 
@@ -442,6 +444,17 @@ class MirCrate:
                 if m:
                     nm = m.group(2) + '::' + m.group(1)
                 self.consts[nm] = (i, j)
+                i = j
+            elif l.startswith('const ') and l.rstrip().endswith(';') and ' = const ' in l:
+                m = re.match(r'const (.*?): (.*?) = const (.*);$', l.rstrip())
+                if m and m.group(3) != '()':
+                    self.simple_consts[m.group(1)] = m.group(3)
+            elif l.startswith('alloc') and re.match(r'alloc\d+ \(static: ', l):
+                m = re.match(r'(alloc\d+) \(static: ([\w:]+)', l)
+                self.static_allocs[m.group(1)] = m.group(2)
+                j = i + 1
+                while lines[j] != '}':
+                    j += 1
                 i = j
             elif l.startswith('alloc') and '(size:' in l:
                 m = re.match(r'(alloc\d+) \(size: (\d+)', l)
